@@ -46,7 +46,7 @@ fn record(out: &mut Out, coll: &str, rng: &mut Rng, cfg: &RandCfg) -> (Vec<(Op, 
 }
 
 pub fn inject_suite(out: &mut Out, coll: &str, rng: &mut Rng, n_hist: usize, len: usize, universe: i64, max_points_per_op: usize) -> (usize, usize) {
-    let suite = format!("inject-{}", coll);
+    let suite = format!("{}inject-{}", if arena_mode() { "arena-" } else { "" }, coll);
     let modelled = matches!(coll, "map" | "set" | "key" | "mlist" | "slist" | "klist");
     let expiring = coll == "key" || coll == "klist";
     let mut points = 0usize;
